@@ -151,6 +151,27 @@ CHECKS = {
         note='Trusted: Coq kernel, extraction, the hand models, the sampling of trace acceptance. -f alternative manifest names are exercised only through the generic harness parameter.',
         technique='Coq proof over an orchestration model + trace acceptance of regeneration histories',
     ),
+    "C02": dict(
+        category="proof",
+        text='Coq theorems: a clean verdict implies the current manifest has the recorded hash, hence (no collision between the two manifests compared, injectivity of the manifest byte stream proved) names, mtimes, command line of every dirtying input, discovered dependency and output are exactly those of the last successful completion; any change or removal of one of them makes the verdict not clean + every verdict, every recorded hash (bit-for-bit SipHash-1-3 of the modelled stream) and the final log bytes of random edit histories are replayed through the extracted model, and after every successful invocation the outputs are compared with a from-scratch build of the same sources by the real code.',
+        design_ref='DESIGN.md §6 C02',
+        note='Trusted: Coq kernel, extraction, the hand models of work.rs/hash.rs/db.rs (Model/World.v, Hash.v, Db.v), the sampling of trace acceptance. Hypotheses (explicit premises, not axioms): H-hash no SipHash collision between the two manifests compared; H-cmd hermetic deterministic commands; H-mtime a content change comes with a new mtime; H-quiet nothing else writes the tree during an invocation (cache_consistent). Phony aliases used as dirtying inputs (F8) are excluded by the property.',
+        technique='Coq proof of the decision rule + trace acceptance of histories + clean-build oracle',
+    ),
+    "C03": dict(
+        category="proof",
+        text='Coq theorems: a dirty verdict has one of exactly three causes (a missing dirtying input / discovered dependency / output; no record; a manifest whose hash differs from the recorded one); the manifest and the verdict ignore order-only and validation inputs and every other step; after a record (also the adopt/restat one) an unchanged tree gives a clean verdict in any later Work, including through a reload of the log (null build) + replay of every verdict/record of random histories through the extracted model and a null-build monitor on repeated invocations.',
+        design_ref='DESIGN.md §6 C03',
+        note="Trusted: Coq kernel, extraction, the hand models of work.rs/hash.rs/db.rs (Model/World.v, Hash.v, Db.v), the sampling of trace acceptance. Hypotheses (explicit premises, not axioms): H-hash no SipHash collision between the two manifests compared; H-cmd hermetic deterministic commands; H-mtime a content change comes with a new mtime; H-quiet nothing else writes the tree during an invocation (cache_consistent). The link 'generated inputs were stat()ed when their producer finished' (stated_generated) to the scheduler order is a premise, not derived.",
+        technique='Coq proof of the dirty-check rule + trace acceptance of histories',
+    ),
+    "C09": dict(
+        category="proof",
+        text='Coq theorems: the kept dependency list is the canonicalised, de-duplicated (first occurrence) report minus the declared dirtying inputs, two spellings collapse, a successful run replaces the list wholesale, the list and hash persist through the log into any later load (via the C08 round trip), a missing discovered dependency gives verdict dirty and never an error, and /showIncludes filtering removes exactly the Note lines and reports exactly their payloads + history replay as C02/C03 with steps reporting #include-style dependencies (growing, shrinking, several spellings, missing files), an exhaustive differential check of extract_showincludes, and a `-t restat` probe. Pinned tree: F16 and F10 repaired.',
+        design_ref='DESIGN.md §6 C09',
+        note="Trusted: Coq kernel, extraction, the hand models of work.rs/hash.rs/db.rs (Model/World.v, Hash.v, Db.v), the sampling of trace acceptance. Hypotheses (explicit premises, not axioms): H-hash no SipHash collision between the two manifests compared; H-cmd hermetic deterministic commands; H-mtime a content change comes with a new mtime; H-quiet nothing else writes the tree during an invocation (cache_consistent). 'Discovered dependencies never change build order' holds because the scheduler model has no access to them (C01).",
+        technique='Coq proof (dependency bookkeeping, log persistence, filter) + trace acceptance + differential correspondence',
+    ),
 }
 
 PENDING_REASON = "check not built yet in this round (work in progress, see DESIGN.md §10); not claimed"
